@@ -5,8 +5,9 @@
   A file is a byte string; `os.File` reads are `take`/`drop` on it.  Quirks kept:
     * a short block header (1..15 bytes) is a clean EOF;
     * `io.ReadFull` of the compressed data returns `io.EOF` — a *clean* end for
-      `ReadAllEntries` — when not a single byte follows the header, but
-      `io.ErrUnexpectedEOF` (an error) when some but not all bytes follow;
+      `ReadAllEntries` — when not a single byte follows the header; when some but not all
+      bytes follow it is `io.ErrUnexpectedEOF` (an error) or, with `cfg.shortPayloadIsEOF`,
+      the torn tail of an interrupted append, i.e. also a clean end;
     * `ParseBlock` ignores bytes after the last counted entry;
     * `LoadIndex` ignores operations other than 1..4;
     * `LoadIndex` discards everything on an error, `scanFile` keeps what it saw before it.
@@ -74,7 +75,7 @@ def readNextBlock (cfg : Cfg) (d : Decoder) (crc : Checksum) (rest : Bytes) : Bl
   let h := decodeBlockHeader rest
   let after := rest.drop 16
   if 0 < h.csize && after.isEmpty then .eof
-  else if shorterThan after h.csize then .err .ueof
+  else if shorterThan after h.csize then (if cfg.shortPayloadIsEOF then .eof else .err .ueof)
   else
     match parseBlock cfg d crc h (after.take h.csize) with
     | .error e => .err e
@@ -90,7 +91,7 @@ theorem readNextBlock_ok_length {cfg d crc rest es rest'}
     split at h
     · cases h
     · split at h
-      · cases h
+      · split at h <;> cases h
       · split at h
         · cases h
         · cases h
